@@ -1239,7 +1239,7 @@ func (ex *Exec) rangeNext(fr *Frame, x *ssa.Next) Val {
 		if it.m != nil {
 			live := false
 			for j, mk := range it.m.Keys {
-				if mk == k || ex.valEq(mk, k).IsTrue() {
+				if ex.valEq(mk, k).IsTrue() {
 					live = true
 					v = it.m.Vals[j]
 					break
